@@ -78,7 +78,7 @@ def generate(rng, tier, index):
             op['script'] = script
         ops.append(op)
     scn = {'property': ID, 'harness': 'cli', 'client': {'kind': kind, 'framing': framing, 'kwargs': kw},
-           'callers': [ops], 'cpu_step': rng.choice([1e-4, 1e-3]), 'sched': {'tail_seed': rng.randrange(1 << 30)},
+           'callers': [ops], 'cpu_step': rng.choice([2e-6, 1e-5, 5e-5]), 'sched': {'tail_seed': rng.randrange(1 << 30)},
            'config': 'fault' if faulty else 'fault-free'}
     if rng.random() < 0.3:
         scn['tid_start'] = rng.choice([0xFFFD, 0xFFFE, 0xFFFF, 0xFFFC])
@@ -176,7 +176,7 @@ def execute(scn):
                                       % (call['index'], op['fn'], op['unit'], type(r).__name__, pdu.hex()[:40], why)})
             continue
         # (c) values, when the right reply was what the server sent for this request
-        if set(acts) <= {'reply', 'exception'}:
+        if scn.get('config') == 'fault-free' and len(acts) <= 1 and set(acts) <= {'reply', 'exception'}:
             if acts and acts[0] == 'exception':
                 op = dict(op, reply={'exc': (op['script'][0].get('code', 2))})
             okv, whyv = cc.values_match(op, r)
